@@ -615,7 +615,7 @@ def run(ctx):
     warnings.filterwarnings('ignore')
     quick = ctx.tier == 'quick'
     widen = bool(ctx.broken)
-    budget_total = (40.0 if quick else 420.0) * (1.5 if widen else 1.0)
+    budget_total = (34.0 if quick else 420.0) * (1.5 if widen else 1.0)
     ctx.deadline = time.time() + budget_total
     programs = list(QUICK_PROGRAMS) + ([] if quick else list(THOROUGH_PROGRAMS))
     if not quick:
